@@ -935,3 +935,45 @@ def poly(e, atom):
                 out[m] = out.get(m, 0) + sgn * c
         return {m: c for m, c in out.items() if c}
     return {("?" + sx_show(e, 80),): 1}
+
+
+# ---- one-level inlining of small pure crate-local helpers -----------------------------------------
+
+def inline_pure_helper(facts, e, depth=2):
+    """if `e` is a call to a crate-local function whose body is a pure expression (after let-inlining), return the
+    body with parameters substituted by the arguments (recursively, bounded); otherwise return e"""
+    if depth <= 0 or not isinstance(e, tuple) or e[0] != "call":
+        return e
+    body = None
+    for n, b in facts.thir.items():
+        if canon(n) == e[1]:
+            body = b
+            break
+    if body is None or len(body["params"]) != len(e[2]):
+        return e
+    pnames = []
+    for p in body["params"]:
+        pat = p.get("pat")
+        if not pat or pat.get("k") != "Bind" or "sub" in pat:
+            return e
+        pnames.append(pat["name"])
+    bx = sx(body["body"], {})
+    if any(isinstance(x, tuple) and x and x[0] in ("opaque", "match", "if", "try", "closure") for x in sx_walk(bx)):
+        return e
+    mapping = dict(zip(pnames, e[2]))
+
+    def subst(t):
+        if not isinstance(t, tuple):
+            return t
+        if t and t[0] == "var" and len(t) > 2 and t[2] in mapping:
+            return mapping[t[2]]
+        return tuple(subst(x) if isinstance(x, tuple) else x for x in t)
+    return inline_pure_helper(facts, subst(bx), depth - 1)
+
+
+def map_sx(t, fn):
+    """rebuild an sx tree bottom-up applying fn to every node"""
+    if not isinstance(t, tuple):
+        return t
+    out = tuple(map_sx(x, fn) if isinstance(x, tuple) else x for x in t)
+    return fn(out) if out and isinstance(out[0], str) else out
